@@ -244,7 +244,8 @@ def block_tasks(ffname, blockname, tier, depth):
                     # removing a leaf and attaching the same element to its neighbour is the canonical residue again
                     if degree.get(dele[1], 0) == 1 and nbr[dele[1]][0] == att[1] and elements[dele[1]] == att[2]:
                         continue
-                if kinds & {'delete-heavy', 'delete-pair'} and kinds & {'delete', 'attach', 'delete-heavy', 'delete-pair'} and len(kinds) > 1:
+                removal = {'delete-heavy', 'delete-pair'}
+                if (a[0] in removal and b[0] in removal | {'delete', 'attach'}) or (b[0] in removal and a[0] in removal | {'delete', 'attach'}):
                     continue      # overlapping removals / attachments onto removed atoms: expectation not known by construction
                 out.append((a, b))
         else:
